@@ -66,6 +66,24 @@ Proof.
   rewrite E in E'. injection E' as <- <- <-. destruct (H13 Hr) as (k0 & Hk & H). injection Hk as <-. exact H.
 Qed.
 
+(* NONE LOST.  The answered responses are exactly: those in flight, the one in the reader's hand
+   (hand rpc = 1 while the reader has read a response and not yet looked it up), and those looked
+   up -- counted; together with c04_generic_in_flight (these three groups are duplicate-free,
+   pairwise disjoint and consist of answered requests) this is a partition, so no response
+   disappears, and by c04_generic every one that is looked up is matched. *)
+Theorem c04_generic_none_lost sk reqs order sched :
+  tx_safeb sk = true ->
+  (forall k k', needs (rq reqs k) = true -> needs (rq reqs k') = true ->
+                q_tid (rq reqs k) = q_tid (rq reqs k') -> k = k') ->
+  NoDup order ->
+  let s := trun sk reqs (tinit reqs [order] 1) sched in
+  forall rpc held found, nth_error (t_ths s) 1 = Some (TReader rpc held found) ->
+    length (t_answered s) = (length (t_queue s) + length (t_log s) + hand rpc)%nat.
+Proof.
+  intros Hs Hd Hn s. pose proof (trun_inv2 sk reqs Hs Hd order sched Hn) as HI. fold s in HI.
+  exact (i_cnt _ _ HI).
+Qed.
+
 (* NO UNSYNCHRONISED TABLE ACCESS.  Under the discipline no two threads are ever inside accesses to
    the transaction table at the same time -- for any number of writers and readers, every request
    sequence and every interleaving (the model's rendering of "no data race on the table"). *)
@@ -123,6 +141,7 @@ Qed.
 
 Print Assumptions c04_generic.
 Print Assumptions c04_generic_in_flight.
+Print Assumptions c04_generic_none_lost.
 Print Assumptions c04_generic_no_race.
 Print Assumptions c04_repo_no_race.
 Print Assumptions c04_repo_discipline.
